@@ -152,177 +152,183 @@ func isLogSink(fn *ssa.Function) bool {
 	return false
 }
 
-func runProtocol(p *Program, r *RuleResult) {
+// protocolTables collects, for one interpreter family, the message writers and readers.
+func protocolTables(p *Program, family string) ([]*msgWriter, []*msgReader) {
 	msgT := p.Named(processPkg, "Message")
 	form := p.Named(processPkg, "Form")
 	p.computeNoReturn()
-	for _, family := range []string{"Transition", "TransitionNP"} {
-		var writers []*msgWriter
-		var readers []*msgReader
-		for _, T := range p.Implementers(form) {
-			root := p.MethodOpt(T, family)
-			if root == nil {
-				continue
-			}
-			fns := append([]*ssa.Function{root}, allAnon(root)...)
-			for _, fn := range fns {
-				view := p.View(fn)
-				// ---- writers: local Message values with a constant Rule
-				for _, b := range view.Blocks() {
-					for _, in := range view.Instrs(b) {
-						al, ok := in.(*ssa.Alloc)
-						if !ok || !types.Identical(al.Type().Underlying().(*types.Pointer).Elem(), msgT) {
-							continue
-						}
-						w := &msgWriter{fn: root, form: T.Obj().Name(), fields: map[string]bool{}, pos: p.instrPos(al)}
-						for _, u := range *al.Referrers() {
-							fa, ok := u.(*ssa.FieldAddr)
-							if !ok {
-								continue
-							}
-							_, fname, _ := fieldNameOf(fa)
-							for _, st := range storesTo(fa) {
-								if fname == "Rule" {
-									if k, ok := st.Val.(*ssa.Const); ok {
-										w.kind = p.ruleConstName(k.Int64())
-									}
-								} else {
-									w.fields[fname] = true
-								}
-							}
-						}
-						if w.kind == "" {
-							continue
-						}
-						// where is it sent?
-						for _, u := range *al.Referrers() {
-							ld, ok := u.(*ssa.UnOp)
-							if !ok {
-								continue
-							}
-							for _, uu := range *ld.Referrers() {
-								switch y := uu.(type) {
-								case *ssa.Send:
-									w.side = chanSide(y.Chan)
-								case ssa.CallInstruction:
-									for _, a := range y.Common().Args {
-										if ch, ok := a.Type().Underlying().(*types.Chan); ok && types.Identical(ch.Elem(), msgT) {
-											w.side = chanSide(a)
-										}
-									}
-								case *ssa.Select:
-									for _, st := range y.States {
-										if st.Dir == types.SendOnly && st.Send == ssa.Value(ld) {
-											w.side = chanSide(st.Chan)
-										}
-									}
-								}
-							}
-						}
-						writers = append(writers, w)
-					}
-				}
-				// ---- readers: closures func(Message) passed with a channel to a receiving helper
-				for _, c := range p.callsIn(fn) {
-					var clo *ssa.Function
-					var chv ssa.Value
-					for _, a := range c.Common().Args {
-						if mc, ok := origin(a).(*ssa.MakeClosure); ok {
-							if sig := mc.Fn.(*ssa.Function).Signature; sig.Params().Len() == 1 && types.Identical(sig.Params().At(0).Type(), msgT) {
-								clo = mc.Fn.(*ssa.Function)
-							}
-						}
-						if ch, ok := a.Type().Underlying().(*types.Chan); ok && types.Identical(ch.Elem(), msgT) {
-							chv = a
-						}
-					}
-					if clo == nil || chv == nil {
+	var writers []*msgWriter
+	var readers []*msgReader
+	for _, T := range p.Implementers(form) {
+		root := p.MethodOpt(T, family)
+		if root == nil {
+			continue
+		}
+		fns := append([]*ssa.Function{root}, allAnon(root)...)
+		for _, fn := range fns {
+			view := p.View(fn)
+			// ---- writers: local Message values with a constant Rule
+			for _, b := range view.Blocks() {
+				for _, in := range view.Instrs(b) {
+					al, ok := in.(*ssa.Alloc)
+					if !ok || !types.Identical(al.Type().Underlying().(*types.Pointer).Elem(), msgT) {
 						continue
 					}
-					rd := &msgReader{fn: root, clo: clo, form: T.Obj().Name(), side: chanSide(chv), fields: map[string]ssa.Instruction{}, pos: p.pos(clo.Pos())}
-					msgParam := clo.Params[0]
-					cview := p.View(clo)
-					// field reads of the message (directly, or through the cell the parameter is spilled into)
-					type fread struct {
-						name string
-						val  ssa.Value
+					w := &msgWriter{fn: root, form: T.Obj().Name(), fields: map[string]bool{}, pos: p.instrPos(al)}
+					for _, u := range *al.Referrers() {
+						fa, ok := u.(*ssa.FieldAddr)
+						if !ok {
+							continue
+						}
+						_, fname, _ := fieldNameOf(fa)
+						for _, st := range storesTo(fa) {
+							if fname == "Rule" {
+								if k, ok := st.Val.(*ssa.Const); ok {
+									w.kind = p.ruleConstName(k.Int64())
+								}
+							} else {
+								w.fields[fname] = true
+							}
+						}
 					}
-					var freads []fread
-					for _, u := range *msgParam.Referrers() {
-						switch x := u.(type) {
-						case *ssa.Field:
-							_, n, _ := fieldNameOf(x)
-							freads = append(freads, fread{n, x})
-						case *ssa.Store:
-							if al, ok := x.Addr.(*ssa.Alloc); ok && x.Val == ssa.Value(msgParam) {
-								for _, au := range *al.Referrers() {
-									if fa, ok := au.(*ssa.FieldAddr); ok {
-										_, n, _ := fieldNameOf(fa)
-										for _, lu := range *fa.Referrers() {
-											if ld, ok := lu.(*ssa.UnOp); ok {
-												freads = append(freads, fread{n, ld})
-											}
+					if w.kind == "" {
+						continue
+					}
+					// where is it sent?
+					for _, u := range *al.Referrers() {
+						ld, ok := u.(*ssa.UnOp)
+						if !ok {
+							continue
+						}
+						for _, uu := range *ld.Referrers() {
+							switch y := uu.(type) {
+							case *ssa.Send:
+								w.side = chanSide(y.Chan)
+							case ssa.CallInstruction:
+								for _, a := range y.Common().Args {
+									if ch, ok := a.Type().Underlying().(*types.Chan); ok && types.Identical(ch.Elem(), msgT) {
+										w.side = chanSide(a)
+									}
+								}
+							case *ssa.Select:
+								for _, st := range y.States {
+									if st.Dir == types.SendOnly && st.Send == ssa.Value(ld) {
+										w.side = chanSide(st.Chan)
+									}
+								}
+							}
+						}
+					}
+					writers = append(writers, w)
+				}
+			}
+			// ---- readers: closures func(Message) passed with a channel to a receiving helper
+			for _, c := range p.callsIn(fn) {
+				var clo *ssa.Function
+				var chv ssa.Value
+				for _, a := range c.Common().Args {
+					if mc, ok := origin(a).(*ssa.MakeClosure); ok {
+						if sig := mc.Fn.(*ssa.Function).Signature; sig.Params().Len() == 1 && types.Identical(sig.Params().At(0).Type(), msgT) {
+							clo = mc.Fn.(*ssa.Function)
+						}
+					}
+					if ch, ok := a.Type().Underlying().(*types.Chan); ok && types.Identical(ch.Elem(), msgT) {
+						chv = a
+					}
+				}
+				if clo == nil || chv == nil {
+					continue
+				}
+				rd := &msgReader{fn: root, clo: clo, form: T.Obj().Name(), side: chanSide(chv), fields: map[string]ssa.Instruction{}, pos: p.pos(clo.Pos())}
+				msgParam := clo.Params[0]
+				cview := p.View(clo)
+				// field reads of the message (directly, or through the cell the parameter is spilled into)
+				type fread struct {
+					name string
+					val  ssa.Value
+				}
+				var freads []fread
+				for _, u := range *msgParam.Referrers() {
+					switch x := u.(type) {
+					case *ssa.Field:
+						_, n, _ := fieldNameOf(x)
+						freads = append(freads, fread{n, x})
+					case *ssa.Store:
+						if al, ok := x.Addr.(*ssa.Alloc); ok && x.Val == ssa.Value(msgParam) {
+							for _, au := range *al.Referrers() {
+								if fa, ok := au.(*ssa.FieldAddr); ok {
+									_, n, _ := fieldNameOf(fa)
+									for _, lu := range *fa.Referrers() {
+										if ld, ok := lu.(*ssa.UnOp); ok {
+											freads = append(freads, fread{n, ld})
 										}
 									}
 								}
 							}
 						}
 					}
-					// expected kind: comparison of message.Rule with a constant whose mismatch edge fails
-					var kindCmp *ssa.BinOp
-					for _, fr := range freads {
-						if fr.name != "Rule" {
-							continue
-						}
-						for _, u := range *fr.val.Referrers() {
-							bo, ok := u.(*ssa.BinOp)
-							if !ok || (bo.Op != token.NEQ && bo.Op != token.EQL) {
-								continue
-							}
-							k, ok := bo.Y.(*ssa.Const)
-							if !ok {
-								continue
-							}
-							// the mismatch edge must fail (no-return)
-							mism := factTrue
-							if bo.Op == token.EQL {
-								mism = factFalse
-							}
-							fails := false
-							for _, bb := range cview.Blocks() {
-								if cview.holdsAt(bb, bo, mism) && cview.Exit(bb) == ExitPanic {
-									fails = true
-								}
-							}
-							if fails {
-								rd.kind = p.ruleConstName(k.Int64())
-								kindCmp = bo
-							}
-						}
-					}
-					for _, fr := range freads {
-						if fr.name == "Rule" {
-							continue
-						}
-						if p.onlyLogged(fr.val, 0) {
-							continue
-						}
-						in, _ := fr.val.(ssa.Instruction)
-						rd.fields[fr.name] = in
-						if kindCmp != nil && in != nil {
-							want := factFalse
-							if kindCmp.Op == token.EQL {
-								want = factTrue
-							}
-							if !cview.holdsAt(in.Block(), kindCmp, want) {
-								rd.unchecked = append(rd.unchecked, fr.name)
-							}
-						}
-					}
-					readers = append(readers, rd)
 				}
+				// expected kind: comparison of message.Rule with a constant whose mismatch edge fails
+				var kindCmp *ssa.BinOp
+				for _, fr := range freads {
+					if fr.name != "Rule" {
+						continue
+					}
+					for _, u := range *fr.val.Referrers() {
+						bo, ok := u.(*ssa.BinOp)
+						if !ok || (bo.Op != token.NEQ && bo.Op != token.EQL) {
+							continue
+						}
+						k, ok := bo.Y.(*ssa.Const)
+						if !ok {
+							continue
+						}
+						// the mismatch edge must fail (no-return)
+						mism := factTrue
+						if bo.Op == token.EQL {
+							mism = factFalse
+						}
+						fails := false
+						for _, bb := range cview.Blocks() {
+							if cview.holdsAt(bb, bo, mism) && cview.Exit(bb) == ExitPanic {
+								fails = true
+							}
+						}
+						if fails {
+							rd.kind = p.ruleConstName(k.Int64())
+							kindCmp = bo
+						}
+					}
+				}
+				for _, fr := range freads {
+					if fr.name == "Rule" {
+						continue
+					}
+					if p.onlyLogged(fr.val, 0) {
+						continue
+					}
+					in, _ := fr.val.(ssa.Instruction)
+					rd.fields[fr.name] = in
+					if kindCmp != nil && in != nil {
+						want := factFalse
+						if kindCmp.Op == token.EQL {
+							want = factTrue
+						}
+						if !cview.holdsAt(in.Block(), kindCmp, want) {
+							rd.unchecked = append(rd.unchecked, fr.name)
+						}
+					}
+				}
+				readers = append(readers, rd)
 			}
 		}
+	}
+	return writers, readers
+}
+
+func runProtocol(p *Program, r *RuleResult) {
+	for _, family := range []string{"Transition", "TransitionNP"} {
+		writers, readers := protocolTables(p, family)
 		r.count(family+" writers", len(writers))
 		r.count(family+" readers", len(readers))
 		fam := family
